@@ -59,9 +59,21 @@ def resetStmts (sigs : Array SigDecl) : List Nat → Stmts
     let d := sigs.getD i default
     .cons (.assign (.sig i d.w d.s) (.const d.reset d.w d.s)) (resetStmts sigs is)
 
-/-- One evaluation of `fragment.comb` (with the `s.eq(s.reset)` defaults the simulator prepends). -/
+def insertByName (sigs : Array SigDecl) (i : Nat) : List Nat → List Nat
+  | [] => [i]
+  | j :: js => if (sigs.getD i default).name < (sigs.getD j default).name then i :: j :: js
+               else j :: insertByName sigs i js
+
+/-- `sorted(g[0], key=ns.get_name)`. -/
+def sortByName (sigs : Array SigDecl) : List Nat → List Nat
+  | [] => []
+  | i :: is => insertByName sigs i (sortByName sigs is)
+
+/-- One evaluation of `fragment.comb` (with the `s.eq(s.reset)` defaults the simulator prepends; the simulator
+    builds them from a Python `set`, i.e. in no particular order — we take the order of the printed text). -/
 def combPassF (f : FModule) (a : Array Int) : Mods :=
-  f.comb.foldl (fun m g => execFs (envA a) g.stmts (execFs (envA a) (resetStmts f.sigs g.targets) m)) []
+  f.comb.foldl (fun m g =>
+    execFs (envA a) g.stmts (execFs (envA a) (resetStmts f.sigs (sortByName f.sigs g.targets)) m)) []
 
 /-- Execute comb / commit until nothing changes (`fuel` bounds the iteration: combinational loops). -/
 def settleF (f : FModule) : Nat → Array Int → Array Int
@@ -112,16 +124,6 @@ def useWire : Stmts → Option (Expr × Expr)
     | .slice _ _ _ => none
     | _ => some (l, r)
   | _ => none
-
-def insertByName (sigs : Array SigDecl) (i : Nat) : List Nat → List Nat
-  | [] => [i]
-  | j :: js => if (sigs.getD i default).name < (sigs.getD j default).name then i :: j :: js
-               else j :: insertByName sigs i js
-
-/-- `sorted(g[0], key=ns.get_name)`. -/
-def sortByName (sigs : Array SigDecl) : List Nat → List Nat
-  | [] => []
-  | i :: is => insertByName sigs i (sortByName sigs is)
 
 def VStmts.append : VStmts → VStmts → VStmts
   | .nil, b => b
